@@ -7,6 +7,7 @@ package main
 //             for fresh code, the embedded raw descriptor equals the request's file descriptor.
 
 import (
+	"go/constant"
 	"fmt"
 	"go/ast"
 	"go/token"
@@ -474,6 +475,7 @@ func typeTableGrounds(pk *packages.Package) []Ground {
 		for _, m := range fd.MessageType {
 			declM(goCamel(m.GetName())+"_", m)
 		}
+		out = append(out, enumTableGrounds(pk, fd)...)
 		base := rawDescBase[pk.PkgPath+"\x00"+fd.GetName()]
 		if base == "" {
 			base = "file_" + nonAlnum.ReplaceAllString(fd.GetName(), "_")
@@ -776,7 +778,7 @@ func typeTableGrounds(pk *packages.Package) []Ground {
 				})
 			}
 		}
-		// msgTypes index of every message's (slow)ProtoReflect
+		// msgTypes index used by any method of a message (Reset, ProtoReflect, slowProtoReflect): the message's own position
 		idx := map[string]int{}
 		for i, m := range msgs {
 			idx[m.goName] = i
@@ -784,7 +786,7 @@ func typeTableGrounds(pk *packages.Package) []Ground {
 		for _, f := range pk.Syntax {
 			for _, d := range f.Decls {
 				fdl, ok := d.(*ast.FuncDecl)
-				if !ok || fdl.Recv == nil || fdl.Body == nil || (fdl.Name.Name != "slowProtoReflect" && fdl.Name.Name != "ProtoReflect") {
+				if !ok || fdl.Recv == nil || fdl.Body == nil {
 					continue
 				}
 				recv := strings.TrimPrefix(types.ExprString(fdl.Recv.List[0].Type), "*")
@@ -798,11 +800,12 @@ func typeTableGrounds(pk *packages.Package) []Ground {
 						return true
 					}
 					if id, ok := ie.X.(*ast.Ident); ok && id.Name == base+"_msgTypes" {
+						got := -1
 						if bl, ok := ie.Index.(*ast.BasicLit); ok {
-							got, _ := strconv.Atoi(bl.Value)
-							out = append(out, Ground{Name: fmt.Sprintf("%s/%s.%s/msgTypes-index", name, recv, fdl.Name.Name), OK: got == want,
-								Text: fmt.Sprintf("%s.%s uses the message info at the message's own position %d", recv, fdl.Name.Name, want), Detail: fmt.Sprintf("index %d", got)})
+							got, _ = strconv.Atoi(bl.Value)
 						}
+						out = append(out, Ground{Name: fmt.Sprintf("%s/%s.%s/msgTypes-index", name, recv, fdl.Name.Name), OK: got == want,
+							Text: fmt.Sprintf("%s.%s uses the message info at the message's own position %d", recv, fdl.Name.Name, want), Detail: fmt.Sprintf("index %s", types.ExprString(ie.Index))})
 					}
 					return true
 				})
@@ -899,4 +902,120 @@ func stringMethodGround(ms *MsgSchema) Ground {
 	}
 	g.OK = true
 	return g
+}
+
+// enumTableGrounds (C19): for every enum of the file, the generated constants and the two lookup tables are those of
+// the schema: one constant per declared value with its number (named <scope>_<VALUE>), E_value maps every declared
+// name to its number, and E_name maps every number to the first value declared with it (the canonical name that
+// protobuf-go's String, text and JSON renderings use when allow_alias gives a number several names).
+func enumTableGrounds(pk *packages.Package, fd *descriptorpb.FileDescriptorProto) []Ground {
+	var out []Ground
+	name := shortPkg(pk.PkgPath) + "/" + fd.GetName() + "/enum"
+	lits := map[string]*ast.CompositeLit{}
+	for _, f := range pk.Syntax {
+		for _, d := range f.Decls {
+			gd, ok := d.(*ast.GenDecl)
+			if !ok {
+				continue
+			}
+			for _, sp := range gd.Specs {
+				if vs, ok := sp.(*ast.ValueSpec); ok && len(vs.Names) == len(vs.Values) {
+					for i, id := range vs.Names {
+						if cl, ok := vs.Values[i].(*ast.CompositeLit); ok {
+							lits[id.Name] = cl
+						}
+					}
+				}
+			}
+		}
+	}
+	intOf := func(e ast.Expr) (int64, bool) {
+		tv, ok := pk.TypesInfo.Types[e]
+		if !ok || tv.Value == nil {
+			return 0, false
+		}
+		return constant.Int64Val(constant.ToInt(tv.Value))
+	}
+	strOf := func(e ast.Expr) (string, bool) {
+		tv, ok := pk.TypesInfo.Types[e]
+		if !ok || tv.Value == nil || tv.Value.Kind() != constant.String {
+			return "", false
+		}
+		return constant.StringVal(tv.Value), true
+	}
+	one := func(scope, goName string, e *descriptorpb.EnumDescriptorProto) {
+		wantName := map[int64]string{}
+		wantValue := map[string]int64{}
+		constsOK, detail := true, ""
+		for _, v := range e.Value {
+			n := int64(v.GetNumber())
+			if _, seen := wantName[n]; !seen {
+				wantName[n] = v.GetName()
+			}
+			wantValue[v.GetName()] = n
+			obj, _ := pk.Types.Scope().Lookup(scope + v.GetName()).(*types.Const)
+			if obj == nil {
+				constsOK, detail = false, "no constant "+scope+v.GetName()
+				continue
+			}
+			if got, exact := constant.Int64Val(constant.ToInt(obj.Val())); !exact || got != n || !strings.HasSuffix(obj.Type().String(), "."+goName) {
+				constsOK, detail = false, fmt.Sprintf("%s = %s of type %s, declared %d", obj.Name(), obj.Val(), obj.Type(), n)
+			}
+		}
+		out = append(out, Ground{Name: fmt.Sprintf("%s/%s/constants", name, goName), OK: constsOK, Text: "one Go constant of the enum type per declared value, with the declared number", Detail: detail})
+		gotName, okN := map[int64]string{}, lits[goName+"_name"] != nil
+		if okN {
+			for _, el := range lits[goName+"_name"].Elts {
+				kv, ok := el.(*ast.KeyValueExpr)
+				if !ok {
+					okN = false
+					break
+				}
+				k, ok1 := intOf(kv.Key)
+				v, ok2 := strOf(kv.Value)
+				if _, dup := gotName[k]; !ok1 || !ok2 || dup {
+					okN = false
+					break
+				}
+				gotName[k] = v
+			}
+		}
+		out = append(out, Ground{Name: fmt.Sprintf("%s/%s/name-table", name, goName), OK: okN && fmt.Sprint(gotName) == fmt.Sprint(wantName),
+			Text: goName + "_name maps every declared number to the first name declared for it", Detail: fmt.Sprintf("generated %v, schema %v", gotName, wantName)})
+		gotValue, okV := map[string]int64{}, lits[goName+"_value"] != nil
+		if okV {
+			for _, el := range lits[goName+"_value"].Elts {
+				kv, ok := el.(*ast.KeyValueExpr)
+				if !ok {
+					okV = false
+					break
+				}
+				k, ok1 := strOf(kv.Key)
+				v, ok2 := intOf(kv.Value)
+				if _, dup := gotValue[k]; !ok1 || !ok2 || dup {
+					okV = false
+					break
+				}
+				gotValue[k] = v
+			}
+		}
+		out = append(out, Ground{Name: fmt.Sprintf("%s/%s/value-table", name, goName), OK: okV && fmt.Sprint(gotValue) == fmt.Sprint(wantValue),
+			Text: goName + "_value maps every declared name to its number", Detail: fmt.Sprintf("generated %v, schema %v", gotValue, wantValue)})
+	}
+	for _, e := range fd.EnumType {
+		one(goCamel(e.GetName())+"_", goCamel(e.GetName()), e)
+	}
+	var walk func(goPrefix string, m *descriptorpb.DescriptorProto)
+	walk = func(goPrefix string, m *descriptorpb.DescriptorProto) {
+		for _, e := range m.EnumType {
+			one(goPrefix, goPrefix+goCamel(e.GetName()), e)
+		}
+		for _, n := range m.NestedType {
+			walk(goPrefix+goCamel(n.GetName())+"_", n)
+		}
+	}
+	for _, m := range fd.MessageType {
+		walk(goCamel(m.GetName())+"_", m)
+	}
+	return out
 }
